@@ -167,9 +167,7 @@ theorem inFire_inv {l : Loop} (h : InFire l) : LoopInv l := by
   | start hr d =>
     have hi := reach_inv hr
     exact ⟨by rw [idsOf_swapped]; exact hi.nodup, by rw [trueCount_swapped]; exact hi.cnt⟩
-  | step _ k a maxPct ts out id hout ih =>
-    obtain ⟨js, hr, _⟩ := algStep_spec k a maxPct ts out _ id hout
-    exact hr.inv ih
+  | step _ k a maxPct ts out id hout ih => exact algStep_inv k a maxPct ts out _ id hout ih
 
 theorem inFire_foldl {l : Loop} (h : InFire l) (k : AlgK) (a : Alg) (maxPct : Nat) (ts : Int) (out : Nat → Bool)
     (hout : ∀ j, out j = true → j ∈ idsOf l.eps) (order : List Nat) :
@@ -203,93 +201,21 @@ theorem fire_loops_inFire {s : St} (hr : Reach s) (c : Cfg) (oS oF d : List Nat)
 
 theorem algStep_blocked (l : Loop) (hi : LoopInv l) (k : AlgK) (a : Alg) (maxPct : Nat) (ts : Int) (out : Nat → Bool) (id : Nat)
     (hout : ∀ j, out j = true → j ∈ idsOf l.eps)
-    (hshare : maxPct * l.eps.length ≤ trueCount l.eps * 100)
-    (hfloat : pctGE l.nEj.toNat l.eps.length maxPct = decide (maxPct * l.eps.length ≤ l.nEj.toNat * 100)) :
+    (hshare : maxPct * l.eps.length ≤ trueCount l.eps * 100) :
     (algStep k a maxPct ts out l id).eps = l.eps ∧ (algStep k a maxPct ts out l id).nEj = l.nEj := by
   obtain ⟨js, hr, hor⟩ := algStep_spec k a maxPct ts out l id hout
-  rcases hor with rfl | ⟨_, hp⟩
+  rcases hor with rfl | ⟨_, _, hp⟩
   · exact ⟨by rw [hr.eps, map_applyEj_nil], by rw [hr.nEj]; simp⟩
   · exfalso
-    rw [hfloat] at hp
-    have hc := hi.cnt
-    have : maxPct * l.eps.length ≤ l.nEj.toNat * 100 := by
-      have : trueCount l.eps ≤ l.nEj.toNat := by omega
-      calc maxPct * l.eps.length ≤ trueCount l.eps * 100 := hshare
-        _ ≤ l.nEj.toNat * 100 := Nat.mul_le_mul_right _ this
-    simp [this] at hp
-
-/-! ### T5: when the counter stays exact -/
-
-theorem trueCount_applyEj_eq (ts : Int) (js : List Nat) (eps : List Ep) (hn : (idsOf eps).Nodup)
-    (hj : ∀ j ∈ js, j ∈ idsOf eps) (hnd : js.Nodup) (hfree : ∀ j ∈ js, ∀ x ∈ eps, x.id = j → x.ej = none) :
-    trueCount (eps.map (applyEj ts js)) = trueCount eps + js.length := by
-  induction js generalizing eps with
-  | nil => simp [map_applyEj_nil]
-  | cons j js ih =>
-    rw [map_applyEj_cons]
-    obtain ⟨e, he, hid⟩ := mem_of_mem_idsOf (hj j (by simp))
-    have h1 := trueCount_setEj ts j eps hn e he hid
-    have hee : e.ejected = false := by simp [Ep.ejected, hfree j (by simp) e he hid]
-    simp only [hee, Bool.false_eq_true, if_false] at h1
-    have hn' : (idsOf (eps.map (setEj ts j))).Nodup := by rw [idsOf_map_setEj]; exact hn
-    have hnd' := List.nodup_cons.mp hnd
-    have h2 := ih (eps.map (setEj ts j)) hn' (by intro k hk; rw [idsOf_map_setEj]; exact hj k (by simp [hk])) hnd'.2 (by
-      intro k hk x hx hxk
-      obtain ⟨x0, hx0, rfl⟩ := List.mem_map.mp hx
-      have hne : x0.id ≠ j := by
-        intro h; rw [setEj_id] at hxk; rw [← hxk, h] at hk; exact hnd'.1 hk
-      have : setEj ts j x0 = x0 := by simp [setEj, hne]
-      rw [this] at hxk ⊢
-      exact hfree k (by simp [hk]) x0 hx0 hxk)
-    rw [h2, h1]; simp only [List.length_cons]; omega
+    apply hp
+    rw [← hi.cnt]
+    exact_mod_cast hshare
 
 theorem fire_evs (s : St) (c : Cfg) (hc : s.cfg = some c) (oS oF d : List Nat) :
     (fire s oS oF d).2.1.evs = (algsLoop c s oS oF d).evs := by
   unfold fire
   rw [hc]
   simp only [fireCore_eq]
-
-/-- The difference between the counter and the true number of ejected endpoints is unchanged by a
-    run of the timer whose ejection decisions name pairwise distinct endpoints none of which was
-    ejected before. -/
-theorem fire_drift (s : St) (hi : Inv s) (c : Cfg) (hc : s.cfg = some c) (oS oF d : List Nat)
-    (hnd : (ejIds (fire s oS oF d).2.1.evs).Nodup)
-    (hfree : ∀ j ∈ ejIds (fire s oS oF d).2.1.evs, ∀ x ∈ s.eps, x.id = j → x.ej = none) :
-    (fire s oS oF d).1.nEj - (trueCount (fire s oS oF d).1.eps : Int) = s.nEj - (trueCount s.eps : Int) := by
-  obtain ⟨he, hn, _⟩ := fire_state s c hc oS oF d
-  obtain ⟨js1, js2, sp⟩ := algsLoop_spec c s oS oF d
-  rw [fire_evs s c hc, sp.evs] at hnd hfree
-  have hmem : ∀ j ∈ js1 ++ js2, j ∈ idsOf (swapped s) := by
-    intro j hj
-    rcases List.mem_append.mp hj with hj | hj
-    · obtain ⟨a, _, ho⟩ := sp.sr j hj; exact outSet_mem ho
-    · obtain ⟨a, _, ho⟩ := sp.fp j hj; exact outSet_mem ho
-  have hcnt := trueCount_applyEj_eq s.now (js1 ++ js2) (swapped s) (by rw [idsOf_swapped]; exact hi.nodup) hmem hnd (by
-    intro j hj w hw hwj
-    obtain ⟨x, hx, rfl⟩ := mem_swapped hw
-    exact hfree j hj x hx hwj)
-  rw [he, hn, unejPass_k]
-  have h3 := trueCount_unejPass c s.now (algsLoop c s oS oF d).eps
-  rw [sp.eps] at h3 ⊢
-  rw [sp.nEj, trueCount_swapped] at *
-  omega
-
-theorem update_drift (s : St) (c : Cfg) (ids : List Nat)
-    (h : ∀ x ∈ s.eps, x.ejected = true → ids.contains x.id = true) :
-    (update s c ids).1.nEj - (trueCount (update s c ids).1.eps : Int) = s.nEj - (trueCount s.eps : Int) := by
-  have k := update_kept s c ids
-  have heq := updEps_count_eq s ids h
-  rw [k.eps.trueCount, k.nEj, updateCore_eps, updateCore_nEj]
-  split
-  · rw [trueCount_unej_all, heq]; omega
-  · split
-    · rw [trueCount_map_same (f := Ep.clear) (fun _ => rfl), heq]
-    · rw [heq]
-
-theorem plain_drift (s : St) (op : Op) (hp : plainOp op = true) :
-    (step s op).nEj - (trueCount (step s op).eps : Int) = s.nEj - (trueCount s.eps : Int) := by
-  have k := plain_kept s op hp
-  rw [k.eps.trueCount, k.nEj]
 
 /-! ### T6: the un-ejection rule -/
 
